@@ -436,7 +436,9 @@ def _replay_corpus(mod: Any, prop: str, ctx: "Ctx", shard: int, nshards: int, on
     import signal
 
     d = os.path.join(VERIF, "corpus", prop)
-    if not os.path.isdir(d):
+    if not os.path.isdir(d) or os.environ.get("VERIF_NO_CORPUS"):
+        # (VERIF_NO_CORPUS=1: measurement aid for tools/mutants.py -- is a change still found by
+        # generation alone?  Never set by a registered command.)
         return
     subs = {c.name: c for c in list(mod.CHECKS) + list(getattr(mod, "ENUMS", []))}
     for i, name in enumerate(sorted(os.listdir(d))):
